@@ -3,6 +3,8 @@
 -/
 import OttoVerif.C03.Spec
 import OttoVerif.C03.Lemmas
+import OttoVerif.C03.LitModel
+import OttoVerif.C03.LitSpec
 namespace OttoVerif.C03.Thm
 open OttoVerif.C03 OttoVerif.C03.Spec OttoVerif.C03.Lem
 
@@ -42,5 +44,45 @@ example : let e : E := .asg .add (.id "a") (.cond (.bin .lor (.id "b") (.un .typ
 def wRel : E := .bin .lt (.bin .lt (.id "a") (.id "b")) (.id "c")
 example : relChain wRel = true := by decide
 example : parseExpression 40 true (print wRel) = some (.bin .lt (.id "a") (.bin .lt (.id "b") (.id "c")), []) := by decide
+
+/-! ### literal values: kernel-checked witnesses of the deviation regions (replayed on the real code by the harness) -/
+
+/-- `hex_literal_rounding`: 0x8000000000000401 → 2^63 (otto) vs 2^63+2048 (ES5 §7.8.3) -/
+example : (LitModel.parseNumberLiteral (Str.ofString "0x8000000000000401")).map F64.encode
+        ≠ (LitSpec.numberValue (Str.ofString "0x8000000000000401")).map F64.encode := by decide +kernel
+/-- `octal_literal_overflow`: 01000000000000000000000 is read as decimal 1e21 -/
+example : (LitModel.parseNumberLiteral (Str.ofString "01000000000000000000000")).map F64.encode
+        ≠ (LitSpec.numberValue (Str.ofString "01000000000000000000000")).map F64.encode := by decide +kernel
+/-- `surrogate_escape`: "\uD83D\uDE00" -/
+example : LitModel.parseStringLiteral [92,117,68,56,51,68,92,117,68,69,48,48] = some [0xEF,0xBF,0xBD,0xEF,0xBF,0xBD]
+        ∧ (LitSpec.sv 20 [92,117,68,56,51,68,92,117,68,69,48,48]).map Str.bytesOfUnits = some [0xF0,0x9F,0x98,0x80] := by decide +kernel
+/-- `octal_escape_4to7`: "\477" -/
+example : LitModel.parseStringLiteral [92,52,55,55] = some [0xC4,0xBF] ∧ LitSpec.sv 10 [92,52,55,55] = some [39,55] := by decide +kernel
+/-- `line_continuation_ls_ps`: a \ U+2028 b -/
+example : LitModel.parseStringLiteral [97,92,0xE2,0x80,0xA8,98] = some [97,0xE2,0x80,0xA8,98] ∧ LitSpec.sv 10 [97,92,0x2028,98] = some [97,98] := by decide +kernel
+
+/-- strings without a backslash are returned unchanged (lexer.go:708 fast path) — and that is their SV when they are
+    ASCII without line terminators -/
+theorem strlit_plain_ascii (lit : List Nat) (h : ∀ c ∈ lit, c < 128 ∧ c ≠ 92 ∧ c ≠ 10 ∧ c ≠ 13) :
+    LitModel.parseStringLiteral lit = some lit ∧ LitSpec.sv (lit.length + 1) lit = some lit := by
+  constructor
+  · unfold LitModel.parseStringLiteral
+    by_cases he : lit.isEmpty = true
+    · simp [he]; cases lit <;> simp_all
+    · have : lit.contains 92 = false := by
+        simp only [List.contains_eq_mem, decide_eq_false_iff_not]
+        intro hm; exact (h 92 hm).2.1 rfl
+      simp [he]
+      intro hm; exact absurd rfl (h 92 hm).2.1
+  · induction lit with
+    | nil => simp [LitSpec.sv]
+    | cons c r ih =>
+      have hc := h c (by simp)
+      have hr := ih (fun x hx => h x (by simp [hx]))
+      have hlt : LitSpec.isLT c = false := by
+        simp [LitSpec.isLT]; omega
+      simp only [List.length_cons, LitSpec.sv]
+      have h16 : c < 65536 := by omega
+      simp [hc.2.1, hlt, hr, LitSpec.units, h16]
 
 end OttoVerif.C03.Thm
